@@ -439,7 +439,7 @@ func (w *worker) runPT(i int, p ptCase, name string) {
 					"combine": map[string]any{"strategy": "string", "string": map[string]any{"fmt": "%v-%v"}, "variables": []any{map[string]any{"fromFieldPath": "spec.size"}, map[string]any{"fromFieldPath": "spec.missing"}}}}}
 			}
 		}
-		if rng.IntN(3) == 0 {
+		if usesSet := rng.IntN(3) == 0; usesSet || k == 0 {
 			// the template also pulls in a shared PatchSet (inlined by Crossplane before rendering)
 			ps, _ := t["patches"].([]any)
 			t["patches"] = append([]any{map[string]any{"type": "PatchSet", "patchSetName": "common"}}, ps...)
@@ -480,6 +480,34 @@ func (w *worker) runPT(i int, p ptCase, name string) {
 			u := &unstructured.Unstructured{Object: o}
 			_ = unstructured.SetNestedSlice(u.Object, []any{map[string]any{"type": "Ready", "status": "True", "reason": "Available", "lastTransitionTime": "2024-01-01T00:00:00Z"}}, "status", "conditions")
 			_ = prov.Status().Update(context.Background(), u)
+		}
+	}
+	// the user edits the XR (spec.size, which the shared PatchSet copies into the composed resources)
+	// and the next reconcile finds the composed kinds missing from the controller's cache: if it
+	// reports Synced=True, the composed resources carry the new value - they were applied
+	{
+		u := &unstructured.Unstructured{Object: world.GetObj(xrKey)}
+		_ = unstructured.SetNestedField(u.Object, int64(2), "spec", "size")
+		if err := world.Client("user").Update(context.Background(), u); err == nil {
+			cached := world.LaggingClient("xr", func(gk schema.GroupKind) (int64, bool) { return 1 << 40, gk.Group == "nop.ex.org" })
+			env2 := xrk.NewXREnvSplit(world, xrk.XRDTyped(w.xrd), cached, world.Client("xr"))
+			_, _, _ = env2.Reconcile("xr1")
+			env2.CloseConns()
+			c.Count("pt_reconciles_with_composed_kinds_missing_from_cache", 1)
+			if sc := condOf(world.GetObj(xrKey), "Synced"); sc != nil && sc["status"] == "True" {
+				for _, o := range world.Snapshot() {
+					if !strings.HasPrefix(sim.Str(o, "apiVersion"), "nop.ex.org/") {
+						continue
+					}
+					if _, has, _ := unstructured.NestedFieldNoCopy(o, "spec", "forProvider", "size"); !has {
+						continue // its template does not copy spec.size
+					}
+					if n, _, _ := unstructured.NestedInt64(o, "spec", "forProvider", "size"); n != 2 {
+						c.Violate("synced-overstated:pt:composed-kinds-missing-from-cache", name, fmt.Sprintf("the XR's spec.size was set to 2 and the reconcile that followed (composed kinds missing from its cache) reports Synced=True, but composed resource %s still has spec.forProvider.size=%d: it was not applied", sim.Str(o, "metadata", "name"), n), wit())
+						break
+					}
+				}
+			}
 		}
 	}
 	c.Eval("pt|"+kit.JSON(p), !allReady)
@@ -603,6 +631,7 @@ func main() {
 	c.Rule += " P&T readiness: every template carries a list of 1-3 readiness checks drawn from all seven types with a known verdict; an unready one has exactly one failing check at a random position."
 	c.Rule += " " + "A rejected apply is answered 422, no-matches-for-kind, 403 or 503."
 	c.Rule += " " + "P&T templates referencing a PatchSet, provider-reported Ready=True on composed resources, Required combine patches; functions forging conditions through the desired XR status combined with a failing connection publish."
+	c.Rule += " " + "P&T: an XR edit followed by a reconcile whose cache misses the composed kinds: Synced=True only with the new value applied."
 	c.Rule += " " + "Resources composed fine at first whose update is rejected from the second reconcile on, four times in a row by the same reconciler."
 	c.Assumptions = []string{"sim admission returns 422 Invalid for kind NopInvalid", "functions are scripted gRPC servers"}
 	c.Floor = 100
